@@ -199,7 +199,7 @@ def _sample_condition(exp_condition, frametimes, oversampling=16,
         if to < (tmax - 1) and to == t_onset[i]:
             t_offset[i] += 1
 
-    np.add.at(regressor, t_offset, -values)
+    np.subtract.at(regressor, t_offset, values)
     regressor = np.cumsum(regressor)
 
     return regressor, hr_frametimes
